@@ -75,9 +75,18 @@ theorem smSaveFull_spec {β} (s : St β) (d : List (Row β)) :
 theorem smAddDf_refines {β} (s : St β) (new : List (Row β)) :
     Gen.smAddDf (ops β) false true new none (s, none) = ((addDf s new, none), none) := by
   obtain ⟨m, d, o⟩ := s
-  simp only [Gen.smAddDf, Gen.Default.smAddDf, Bool.not_false, Bool.and_true, if_true, smLoadFull_spec, stBind,
-    ops_memIsNone, ops_mem, ops_copy, ops_concat]
-  cases d <;> cases m <;> simp [smSaveFull_spec, addDf, stBind]
+  -- (second alternative: the committed last-good body of `add_df` calls the last-good versions of the two callees)
+  first
+  | (simp only [Gen.smAddDf, Bool.not_false, Bool.and_true, if_true, smLoadFull_spec, stBind,
+       ops_memIsNone, ops_mem, ops_copy, ops_concat]
+     cases d <;> cases m <;> simp [smSaveFull_spec, addDf, stBind]
+     done)
+  | (have e1 : @Gen.Default.smLoadFull = @Gen.smLoadFull := rfl
+     have e2 : @Gen.Default.smSaveFull = @Gen.smSaveFull := rfl
+     simp only [Gen.smAddDf, Gen.Default.smAddDf, e1, e2, Bool.not_false, Bool.and_true, if_true, smLoadFull_spec, stBind,
+       ops_memIsNone, ops_mem, ops_copy, ops_concat]
+     cases d <;> cases m <;> simp [smSaveFull_spec, addDf, stBind]
+     done)
 
 /-- without `sync` nothing is read or written: the new rows are appended to what is in memory -/
 theorem smAddDf_unsynced {β} (s : St β) (new : List (Row β)) :
